@@ -33,9 +33,11 @@ static void run_item(Ctx& ctx, const Item& it) {
           for (int64_t p : ps) {
             VecShape s; s.N = N; s.rs = rs; s.as = as; s.bs = bs; s.rsl = rsl; s.asl = asl; s.bsl = bsl; s.p = p; s.res_extra = 1;
             // out of place, and (size/stride semantics must not depend on it) with the output being the first input
-            for (int al = 0; al < 2; ++al) {
-              if (al && (op.nin < 1 || rsl != asl)) continue;
-              s.alias = al ? AL_RES_A : AL_NONE;
+            // ... or a one-limb view of it with another stride (same pointer, only limb 0 coincides)
+            for (int al = 0; al < 3; ++al) {
+              if (al == 1 && (op.nin < 1 || rsl != asl)) continue;
+              if (al == 2 && (op.nin < 1 || rsl == asl)) continue;
+              s.alias = al == 0 ? AL_NONE : al == 1 ? AL_RES_A : AL_RES_A_VIEW;
               if (al && !alias_ok(op, canon_shape(op, s))) continue;
               ApiCase c = gen_vecop(mod, op, s, mt, it.cfg.name);
               if (!ctx.want(c.id)) continue;
